@@ -63,7 +63,6 @@ Inductive lab :=
 | LCallWait (t : nat) | LRetWait (t : nat) (v : Z)
 | LCallWaitCtx (t : nat) (c : nat) | LRetWaitCtx (t : nat) (v : Z) (err : bool)
 (* internal *)
-| TPass (t : nat)
 | TWrite (t : nat)           (* f.x = x *)
 | TCloseF (t : nat)          (* close(f.c) *)
 | TRecv (t : nat)            (* Wait: <-f.c *)
@@ -90,18 +89,15 @@ Definition gate_open (s : st) (x : thread) : bool :=
 Definition ctx_done (s : st) (c : nat) : bool :=
   match nth_error (ctxs s) c with Some CDone => true | _ => false end.
 
+(* about to make its call: passing the (open) start gate is merged with the invocation event *)
+Definition ready (s : st) (x : thread) : bool :=
+  match t_pc x with PReady => true | PGate => gate_open s x | _ => false end.
+
 Definition step (s : st) (l : lab) : option st :=
   match l with
   | LSpawn t =>
       match getth s t with
       | Some x => match t_pc x with PIdle => Some (setth s t (set_pc x PGate)) | _ => None end
-      | None => None
-      end
-  | TPass t =>
-      match getth s t with
-      | Some x => match t_pc x with
-                  | PGate => if gate_open s x then Some (setth s t (set_pc x PReady)) else None
-                  | _ => None end
       | None => None
       end
   | LRelease g =>
@@ -119,9 +115,9 @@ Definition step (s : st) (l : lab) : option st :=
       end
   | LCallFill t v =>
       match getth s t with
-      | Some x => match t_pc x, t_kind x with
-                  | PReady, KFill v' => if Z.eqb v v' then Some (setth s t (set_pc x PFillCalled)) else None
-                  | _, _ => None end
+      | Some x => match t_kind x with
+                  | KFill v' => if ready s x && Z.eqb v v' then Some (setth s t (set_pc x PFillCalled)) else None
+                  | _ => None end
       | None => None
       end
   | TWrite t =>
@@ -152,9 +148,9 @@ Definition step (s : st) (l : lab) : option st :=
       end
   | LCallWait t =>
       match getth s t with
-      | Some x => match t_pc x, t_kind x with
-                  | PReady, KWait => Some (setth s t (set_pc x PWaitCalled))
-                  | _, _ => None end
+      | Some x => match t_kind x with
+                  | KWait => if ready s x then Some (setth s t (set_pc x PWaitCalled)) else None
+                  | _ => None end
       | None => None
       end
   | TRecv t =>
@@ -166,9 +162,9 @@ Definition step (s : st) (l : lab) : option st :=
       end
   | LCallWaitCtx t c =>
       match getth s t with
-      | Some x => match t_pc x, t_kind x with
-                  | PReady, KWaitCtx c' => if Nat.eqb c c' then Some (setth s t (set_pc x PCtxCalled)) else None
-                  | _, _ => None end
+      | Some x => match t_kind x with
+                  | KWaitCtx c' => if ready s x && Nat.eqb c c' then Some (setth s t (set_pc x PCtxCalled)) else None
+                  | _ => None end
       | None => None
       end
   | TSelF t =>
@@ -211,16 +207,16 @@ Definition step (s : st) (l : lab) : option st :=
   end.
 
 Definition tau_labels (s : st) : list lab :=
-  flat_map (fun t => [TPass t; TWrite t; TCloseF t; TRecv t; TSelF t; TSelCtx t; TRead t]) (seq 0 (length (ths s)))
+  flat_map (fun t => [TWrite t; TCloseF t; TRecv t; TSelF t; TSelCtx t; TRead t]) (seq 0 (length (ths s)))
   ++ map TCancelEff (seq 0 (length (ctxs s))).
 
 Definition thread_visible (s : st) (t : nat) : list lab :=
   match getth s t with
   | Some x =>
       match t_pc x, t_kind x with
-      | PReady, KFill v => [LCallFill t v]
-      | PReady, KWait => [LCallWait t]
-      | PReady, KWaitCtx c => [LCallWaitCtx t c]
+      | PReady, KFill v | PGate, KFill v => [LCallFill t v]
+      | PReady, KWait | PGate, KWait => [LCallWait t]
+      | PReady, KWaitCtx c | PGate, KWaitCtx c => [LCallWaitCtx t c]
       | PFillClosed, _ => [LRetFill t]
       | PFillPanic, _ => [LPanicFill t]
       | PRead v, KWait => [LRetWait t v]
@@ -325,7 +321,6 @@ Inductive lab :=
 | LCallLazy (t : nat) | LRetLazy (t : nat) (v : Z)
 | LFEnter (t : nat) (n : nat) | LFExit (t : nat) (v : Z)
 (* internal *)
-| TPass (t : nat)
 | TOnce (t : nat)            (* once.Do: become the runner, or (once done) take the result *)
 | TOnceDone (t : nat).       (* the runner marks the Once done and publishes the result *)
 
@@ -348,6 +343,9 @@ Definition gate_open (s : st) (x : thread) : bool :=
   | Some g => match nth_error (gates s) g with Some b => b | None => false end
   end.
 
+Definition ready (s : st) (x : thread) : bool :=
+  match t_pc x with PReady => true | PGate => gate_open s x | _ => false end.
+
 Definition step (s : st) (l : lab) : option st :=
   match l with
   | LSpawn t =>
@@ -355,21 +353,14 @@ Definition step (s : st) (l : lab) : option st :=
       | Some x => match t_pc x with PIdle => Some (setth s t (set_pc x PGate)) | _ => None end
       | None => None
       end
-  | TPass t =>
-      match getth s t with
-      | Some x => match t_pc x with
-                  | PGate => if gate_open s x then Some (setth s t (set_pc x PReady)) else None
-                  | _ => None end
-      | None => None
-      end
   | LRelease g =>
       if g <? length (gates s) then Some (with_gates s (upd (gates s) g true)) else None
   | LReleaseF => Some (with_fopen s)
   | LCallLazy t =>
       match getth s t with
-      | Some x => match t_pc x, t_calls x with
-                  | PReady, S n => Some (setth s t (mkT (t_gate x) n PCalled))
-                  | _, _ => None end
+      | Some x => match t_calls x with
+                  | S n => if ready s x then Some (setth s t (mkT (t_gate x) n PCalled)) else None
+                  | O => None end
       | None => None
       end
   | TOnce t =>
@@ -420,13 +411,13 @@ Definition step (s : st) (l : lab) : option st :=
   end.
 
 Definition tau_labels (s : st) : list lab :=
-  flat_map (fun t => [TPass t; TOnce t; TOnceDone t]) (seq 0 (length (ths s))).
+  flat_map (fun t => [TOnce t; TOnceDone t]) (seq 0 (length (ths s))).
 
 Definition thread_visible (s : st) (t : nat) : list lab :=
   match getth s t with
   | Some x =>
       match t_pc x with
-      | PReady => [LCallLazy t]
+      | PReady | PGate => [LCallLazy t]
       | PRunF => [LFEnter t (S (fcount s))]
       | PInF n => [LFExit t (fbase s + Z.of_nat n)%Z]
       | PGot v => [LRetLazy t v]
